@@ -9,7 +9,12 @@ from __future__ import annotations
 import ast
 import itertools
 
-K = 4
+K = 4            # abstract elements; the thorough tier widens it (set_k)
+
+
+def set_k(k: int) -> None:
+    global K
+    K = k
 
 
 class Unsupported(Exception):
@@ -49,6 +54,9 @@ def _seq(e, base: str, env):
             return list(zip(*[_seq(a, base, env) for a in e.args]))
         if name == 'range':
             return list(range(*[_int(a, base, env) for a in e.args]))
+        if name == 'pairwise' and len(e.args) == 1:
+            s_ = _seq(e.args[0], base, env)
+            return list(zip(s_, s_[1:]))
         if name in ('combinations', 'permutations') and len(e.args) == 2:
             r = _int(e.args[1], base, env)
             fn = itertools.combinations if name == 'combinations' else itertools.permutations
